@@ -10,7 +10,7 @@ U32 = 0xFFFFFFFF
 
 def seg_len(s):
     k = s[0]
-    if k == "rand":
+    if k in ("rand", "skew", "runs", "words"):
         return s[2]
     if k == "zero":
         return s[1]
@@ -34,6 +34,22 @@ def seg_chunks(s, chunk=1 << 20):
             t = min(n, chunk)
             yield r.randbytes(t)
             n -= t
+    elif k in ("skew", "runs", "words"):
+        import math
+        r = random.Random(s[1])
+        n = s[2]
+        out = bytearray()
+        if k == "skew":
+            w = [math.exp(-0.08 * i) for i in range(256)]
+            out += bytes(r.choices(range(256), weights=w, k=n))
+        elif k == "runs":
+            while len(out) < n:
+                out += bytes([r.getrandbits(8)]) * r.randint(1, 12)
+        else:
+            words = ["".join(r.choice("abcdefghijklmnopqrstuvwxyz") for _ in range(r.randint(2, 9))) for _ in range(200)]
+            while len(out) < n:
+                out += (" ".join(r.choices(words, k=200)) + " ").encode()
+        yield bytes(out[:n])
     elif k == "zero":
         n = s[1]
         z = bytes(min(n, chunk))
